@@ -44,6 +44,25 @@ def retrieval_closure(check, cg):
             if k2 not in keys:
                 keys.append(k2)
                 more = True
+    # module-level instances of package classes used by these functions: their methods run too (`x(...)`, `key in x`, `with x(...)`)
+    singles = {}
+    for m in repo.modules.values():
+        for nm, vals in m.assigns.items():
+            v = vals[-1]
+            if isinstance(v, ast.Call) and isinstance(v.func, (ast.Name, ast.Attribute)):
+                r_ = repo.resolve_attr_chain(m, v.func)
+                if r_ and r_[0] == 'class':
+                    singles[(m.name, nm)] = r_[1]
+    for k in list(keys):
+        fi = repo.func(k, required=False)
+        if fi is None:
+            continue
+        used = set(n.id for n in _own_nodes(fi.node) if isinstance(n, ast.Name) and isinstance(n.ctx, ast.Load))
+        for (mn, nm), ci_ in singles.items():
+            if mn == fi.module.name and nm in used and nm not in local_names(fi.node):
+                for meth in ci_.methods.values():
+                    if meth.key not in keys:
+                        keys.append(meth.key)
     # the as_forged descriptor is entered from inspect.signature(obj) (emulate=True)
     for k in ['specifiers:_AsForged.__get__']:
         if repo.func(k, required=False) is not None and k not in keys:
@@ -654,8 +673,10 @@ def rule_shared_windows(check, rule, cg=None):
                 for m in repo.modules.values():
                     for nm, vals in m.assigns.items():
                         v = vals[-1]
-                        if isinstance(v, ast.Call) and isinstance(v.func, ast.Name) and v.func.id == fi.cls.name and m is fi.module:
-                            shared = True
+                        if isinstance(v, ast.Call) and isinstance(v.func, (ast.Name, ast.Attribute)):
+                            r_ = repo.resolve_attr_chain(m, v.func)
+                            if r_ and r_[0] == 'class' and r_[1] is fi.cls:
+                                shared = True
                 attr = recv.split('.', 1)[1] if '.' in recv else None
                 if attr and attr.split('.')[0].split('[')[0] in fi.cls.assigns:
                     shared = True
@@ -767,12 +788,24 @@ def rule_flag_published_last(check, rule):
                     if not isinstance(node, ast.If):
                         continue
                     t = node.test
-                    if not (isinstance(t, ast.UnaryOp) and isinstance(t.op, ast.Not) and isinstance(t.operand, ast.Attribute)
-                            and isinstance(t.operand.value, ast.Name) and t.operand.value.id == selfn):
+                    region = None
+                    if isinstance(t, ast.UnaryOp) and isinstance(t.op, ast.Not) and isinstance(t.operand, ast.Attribute) \
+                            and isinstance(t.operand.value, ast.Name) and t.operand.value.id == selfn:
+                        flag = t.operand.attr
+                        region = node.body
+                    elif isinstance(t, ast.Attribute) and isinstance(t.value, ast.Name) and t.value.id == selfn and node.body \
+                            and isinstance(node.body[-1], (ast.Return, ast.Raise)) and not node.orelse:
+                        # the guard-clause form: `if self.<flag>: return` followed by the one-time work
+                        flag = t.attr
+                        par = getattr(node, '_parent', None)
+                        for f_ in ('body', 'orelse', 'finalbody'):
+                            b_ = getattr(par, f_, None)
+                            if isinstance(b_, list) and node in b_:
+                                region = b_[b_.index(node) + 1:]
+                    if region is None:
                         continue
-                    flag = t.operand.attr
                     stores = []
-                    for i, st_ in enumerate(node.body):
+                    for i, st_ in enumerate(region):
                         for x in ast.walk(st_):
                             if isinstance(x, ast.Attribute) and isinstance(x.ctx, ast.Store) and isinstance(x.value, ast.Name) and x.value.id == selfn:
                                 stores.append((i, x.attr, st_))
